@@ -60,6 +60,24 @@ int main(int argc, char** argv) {
                 }
             }
         }
+        // a quarter of the cases: the data already integrate to one in total, but with other shares than the
+        // filling pattern asks for (e.g. a grid normalised for another pattern, or a bucket that must be emptied)
+        bool prenorm = (c % 4 == 1) && nb > 1;
+        if (prenorm) {
+            std::vector<double> sh(nb); double ssum = 0;
+            for (uint32_t b = 0; b < nb; b++) { sh[b] = r.uni(0.05, 1); ssum += sh[b]; }
+            for (uint32_t b = 0; b < nb; b++) {
+                // own Simpson integral (double) of the bunch
+                double I = 0;
+                for (uint32_t x = 0; x < n; x++) { double wx = (x == 0 || x == n - 1) ? 1 : ((x % 2) ? 4 : 2);
+                    for (uint32_t y = 0; y < n; y++) { double wy = (y == 0 || y == n - 1) ? 1 : ((y % 2) ? 4 : 2); I += wx * wy * data[b * nn + (size_t)x * n + y]; } }
+                I *= d0 * d0 / 9.0;
+                if (!(I > 0)) { prenorm = false; break; }
+                float f = (float)(sh[b] / ssum / I);
+                for (size_t i = 0; i < nn; i++) data[b * nn + i] *= f;
+            }
+            if (prenorm) M.ev("prenormalised_cases");
+        }
         // the renormalisation sequence used by the program
         ps->updateXProjection();
         ps->integrateAndNormalize();
